@@ -102,6 +102,7 @@ struct Marks {
 struct Shape {
     unsigned objs, arrs, elems;
     size_t slen, nlen;  // string payload length, name length of the deep field
+    size_t blen;        // length of the bytes field of the outer object
 };
 
 // {"a":{"a":...{"a":[[...[ e1, e2, ... ]...]], "z": "<slen>" }...}} ; the innermost array holds `elems` elements cycling int/double/bool/string
@@ -134,6 +135,12 @@ static Value build(const Shape &sh) {
             s.name = Bytes(sh.nlen ? sh.nlen + 1 : 2, 'b');
             s.s = Bytes(sh.slen, 'x');
             o.c.push_back(std::move(s));
+            Value b;
+            b.k = ref::K_BYT;
+            b.has_name = true;
+            b.name = Bytes(sh.nlen ? sh.nlen + 2 : 3, 'c');
+            b.s = Bytes(sh.blen, 0xab);
+            o.c.push_back(std::move(b));
         }
         cur = std::move(o);
     }
@@ -269,6 +276,7 @@ static void scaling_case(Src &s) {
     base.elems = 4 * (1 + s.u8() % 2);  // all four element kinds present at every size
     base.slen = s.u8() % 16;
     base.nlen = 1 + s.u8() % 3;
+    base.blen = s.u8() % 8;
     // which dimensions are scaled, and how far
     uint8_t dims = s.u8();
     if ((dims & 15) == 0) dims |= 1 + s.u8() % 15;
@@ -276,7 +284,11 @@ static void scaling_case(Src &s) {
     if (dims & 1) { mid.objs = base.objs + 20 + s.u8() % 40; big.objs = 200 + s.u8() % 55; }
     if (dims & 2) { mid.arrs = base.arrs + 20 + s.u8() % 40; big.arrs = 200 + s.u8() % 55; }
     if (dims & 4) { mid.elems = base.elems + 48; big.elems = base.elems + 4 * (125 + s.u16() % 375); }
-    if (dims & 8) { mid.slen = base.slen + 1000; big.slen = 30000 + s.u16() % 35000; mid.nlen = base.nlen + 300; big.nlen = 20000 + s.u16() % 10000; }
+    if (dims & 8) {
+        mid.slen = base.slen + 1000; big.slen = 30000 + s.u16() % 35000;
+        mid.nlen = base.nlen + 300; big.nlen = 20000 + s.u16() % 10000;
+        mid.blen = base.blen + 1000; big.blen = 20000 + s.u16() % 40000;  // also in the text family: print/to_string format bytes one octet per libc call
+    }
     if (!g_warm) {
         // one warm-up pass per entry point: lazy symbol resolution and stdio buffers cost stack only once
         Marks w;
@@ -300,10 +312,10 @@ static void scaling_case(Src &s) {
         st.counters[std::string("stack_hw_max_") + kEP[e]] = std::max<uint64_t>(st.counters[std::string("stack_hw_max_") + kEP[e]], hi);
         if (hi - lo > 512)
             VH_FAIL(fmt("C17/stack-grows/%s", kEP[e]),
-                    "stack high-water of %s depends on the input: %zu B (objs %u arrs %u elems %u slen %zu nlen %zu) vs %zu B (objs %u arrs %u elems %u slen %zu nlen %zu) vs %zu B (objs %u arrs %u "
-                    "elems %u slen %zu nlen %zu)",
-                    kEP[e], mb.hw[e], base.objs, base.arrs, base.elems, base.slen, base.nlen, mm.hw[e], mid.objs, mid.arrs, mid.elems, mid.slen, mid.nlen, mg.hw[e], big.objs, big.arrs, big.elems,
-                    big.slen, big.nlen);
+                    "stack high-water of %s depends on the input: %zu B (objs %u arrs %u elems %u slen %zu nlen %zu blen %zu) vs %zu B (objs %u arrs %u elems %u slen %zu nlen %zu blen %zu) vs %zu B "
+                    "(objs %u arrs %u elems %u slen %zu nlen %zu blen %zu)",
+                    kEP[e], mb.hw[e], base.objs, base.arrs, base.elems, base.slen, base.nlen, base.blen, mm.hw[e], mid.objs, mid.arrs, mid.elems, mid.slen, mid.nlen, mid.blen, mg.hw[e], big.objs,
+                    big.arrs, big.elems, big.slen, big.nlen, big.blen);
     }
     st.nontrivial(mix(mix(mix(base.objs, base.arrs), mix(big.objs, big.arrs)), mix(mix(big.elems, big.slen), dims)));
     st.label(fmt("scaled:%s%s%s%s", dims & 1 ? "objects " : "", dims & 2 ? "arrays " : "", dims & 4 ? "elements " : "", dims & 8 ? "payload/name-length" : ""));
